@@ -491,8 +491,18 @@ inline bool exec(Env& e, const Op& op) {
   } else if (n == "refinetol") {
     if (needM()) {
       const Manifold& a = e.m(A(0));
-      if (a.NumTri() > 5000 || !(a.SurfaceArea() < 50))
-        e.note = "skipped:size";
+      // RefineToTolerance divides an edge into sqrt(3 d / 4 tol) pieces, d growing with the tangents; the
+      // count is cast to int unchecked (known finding C09-refine-division-overflow), so meshes whose
+      // tangents dwarf their size are not fed to it by the generated programs
+      bool wild = false;
+      {
+        MeshGL64 g = a.GetMeshGL64();
+        const double lim = 100 * (a.BoundingBox().Scale() + 1e-9);
+        for (double t : g.halfedgeTangent)
+          if (!(std::abs(t) <= lim)) wild = true;
+      }
+      if (a.NumTri() > 5000 || !(a.SurfaceArea() < 50) || wild)
+        e.note = wild ? "skipped:tangents" : "skipped:size";
       else
         e.pushM(a.RefineToTolerance(U(A(1), .002, .05)));
     }
